@@ -198,6 +198,13 @@ def _wrap_gen(factory: Any, ev: Any) -> Any:
     return on_connection
 
 
+def _run_one(seed: int) -> dict[str, Any]:
+    try:
+        return vloop.run(lambda: _scenario(seed), spin_limit=20000)  # type: ignore[no-any-return]
+    except vloop.VirtualDeadlock as exc:
+        return {"par": {"ends": [1], "kinds": ["ok"], "tau": 0, "zero": False}, "events": [dict(EVD, ev="deadlock")], "meta": f"seed={seed} {exc}"}
+
+
 def run(chk: Check) -> None:
     quick = chk.tier == "quick"
     chk.rule = (
@@ -207,13 +214,9 @@ def run(chk: Check) -> None:
     )
     if not _model(chk, quick):
         return
-    rec = []
-    for i in range(300 if quick else 5000):
-        seed = chk.seed * 50021 + i
-        try:
-            rec.append(vloop.run(lambda: _scenario(seed), spin_limit=20000))
-        except vloop.VirtualDeadlock as exc:
-            rec.append({"par": {"ends": [1], "kinds": ["ok"], "tau": 0, "zero": False}, "events": [dict(EVD, ev="deadlock")], "meta": f"seed={seed} {exc}"})
+    from ..common import pmap
+
+    rec = pmap(_run_one, [chk.seed * 50021 + i for i in range(300 if quick else 20000)])
     slim = [{"par": t["par"], "events": t["events"]} for t in rec]
     res = traces.validate("StreamServerTrace", slim, cfg_text=TRACE_CFG, parallel=8, chunk=400)
     chk.traces += len(rec)
